@@ -59,6 +59,7 @@ type chaosRun struct {
 	done    chan struct{}
 	sidPool []uint32
 	curSids []uint32 // the running scenario's own session ids, if it names them
+	kept    [][]byte // bodies the handler was given during the running stream (the slices themselves)
 	defKey  []byte
 	rng     *rand.Rand
 	// current scenario state (scenarios run one at a time)
@@ -98,6 +99,9 @@ func (h *chaosH) Handle(resp tq.Response, req tq.Request) {
 	hd := req.Header
 	r.rec.Emit(E{"e": "inv", "hid": h.hid, "sid": U32(uint32(hd.SessionID)), "seq": int(hd.SeqNo), "ty": int(hd.Type),
 		"maj": int(hd.Version.MajorVersion), "min": int(hd.Version.MinorVersion), "fl": int(hd.Flags), "b": B(req.Body)})
+	if r.stream != nil {
+		r.kept = append(r.kept, req.Body) // a handler may keep the body it was given: looked at again when the stream is over
+	}
 	if p != nil {
 		for _, op := range p.Ops {
 			switch op {
@@ -459,6 +463,7 @@ func (r *chaosRun) runScenario(sc, next *Scen) {
 func (r *chaosRun) runStream(sc *Scen, conn *FakeConn) {
 	r.stream = sc
 	r.invCount = 0
+	r.kept = nil
 	var all []byte
 	pk := []E{}
 	for i := range sc.Pkts {
@@ -508,6 +513,9 @@ func (r *chaosRun) runStream(sc *Scen, conn *FakeConn) {
 		closed = conn.WaitQuiesce()
 	}
 	runtime.ReadMemStats(&m1)
+	for i, b := range r.kept {
+		r.rec.Emit(E{"e": "late", "i": i + 1, "b": B(b)})
+	}
 	r.rec.Emit(E{"e": "send", "closed": closed, "blocked": blockedBeforeEnd, "alloc": int(m1.TotalAlloc - m0.TotalAlloc), "reads": conn.Reads})
 	r.gauges("q")
 	if !closed {
